@@ -708,7 +708,7 @@ class VectorContainer:
         #  - the span
         #  - the individual underlying variables to conform to the new span
         reindexed = self.copy()
-        reindexed.__dict__['span'] = span  # Use to bypass `strict`
+        reindexed.__dict__['span'] = copy.deepcopy(span)  # Use to bypass `strict`
 
         for name in reindexed.index:
             # Replace the underlying variable, to bypass dimension and type
